@@ -29,7 +29,25 @@ PARTIAL = [
     "np.interp (the interpolant behind the irregular norm) IS modelled and compared",
     "uninitialised memory is not representable in the model: made observable by heap poisoning and by NaN-initialised buffers substituted from outside for np.divide(where=) without out=",
 ]
-TRUSTED_EXTRA = []
+TRUSTED_EXTRA = [
+    "translator harness/c09_translate.py (syntax only: which name is subtracted / divided, ddof and axis keywords, the guard of np.divide, "
+    "the test of the weights, sqrt, the returned tuple, forwarded **kwargs of DenseFunctionalData.center / standardize / rescale / normalize "
+    "-> Generated/StatsFormulas.lean; falls back on harness/c09_statsformulas_reference.lean when the source shape is not recognised)",
+]
+
+
+def translate():
+    """Same translator as C09 (one generated file for both properties)."""
+    import c09
+
+    c09.translate()
+
+
+def extra_coverage(cases, impls, models):
+    import c09
+
+    return dict(translator=dict({k: v for k, v in c09.TRANSLATOR.items() if k != "diffseq"}, files=["lean/FDAModel/Generated/StatsFormulas.lean"],
+                                theorems="C10.source_transform_formulas, C10.coded_variance, C10.coded_standardize, C10.coded_center_rescale_normalize"))
 
 
 # --------------------------------------------------------------------------
